@@ -53,9 +53,13 @@ func (ch *Channel) Invoke(ctx context.Context, methodName string, req, resp inte
 	copts := internal.GetCallOptions(opts)
 
 	reqUrl := *ch.BaseURL
-	reqUrl.Path = path.Join(reqUrl.Path, methodName)
+	reqPath, err := methodPath(reqUrl.Path, methodName)
+	if err != nil {
+		return err
+	}
+	reqUrl.Path = reqPath
 	reqUrlStr := reqUrl.String()
-	ctx, err := internal.ApplyPerRPCCreds(ctx, copts, reqUrlStr, reqUrl.Scheme == "https")
+	ctx, err = internal.ApplyPerRPCCreds(ctx, copts, reqUrlStr, reqUrl.Scheme == "https")
 	if err != nil {
 		return err
 	}
@@ -127,9 +131,13 @@ func (ch *Channel) NewStream(ctx context.Context, desc *grpc.StreamDesc, methodN
 	copts := internal.GetCallOptions(opts)
 
 	reqUrl := *ch.BaseURL
-	reqUrl.Path = path.Join(reqUrl.Path, methodName)
+	reqPath, err := methodPath(reqUrl.Path, methodName)
+	if err != nil {
+		return nil, err
+	}
+	reqUrl.Path = reqPath
 	reqUrlStr := reqUrl.String()
-	ctx, err := internal.ApplyPerRPCCreds(ctx, copts, reqUrlStr, reqUrl.Scheme == "https")
+	ctx, err = internal.ApplyPerRPCCreds(ctx, copts, reqUrlStr, reqUrl.Scheme == "https")
 	if err != nil {
 		return nil, err
 	}
@@ -608,6 +616,23 @@ func (cs *clientStream) doHttpCall(transport http.RoundTripper, req *http.Reques
 		case cs.rCh <- msg:
 		}
 	}
+}
+
+// methodPath returns the request path for the named method below the given
+// base path. Method names have the form "/service/method" (a missing leading
+// slash is tolerated). A name that path cleaning would change - empty, "." or
+// ".." segments, a trailing slash - is not the name of any method; joining it
+// to the base path would silently resolve it to some other name, possibly one
+// outside the base path.
+func methodPath(basePath, methodName string) (string, error) {
+	name := methodName
+	if !strings.HasPrefix(name, "/") {
+		name = "/" + name
+	}
+	if path.Clean(name) != name {
+		return "", status.Errorf(codes.NotFound, "malformed method name: %q", methodName)
+	}
+	return path.Join(basePath, name), nil
 }
 
 // roundTripError translates an error returned by the transport's RoundTrip.
